@@ -411,6 +411,8 @@ def check(ctx):
     cfgs = ["F0", "F1", "F1N"] if ctx.tier == "quick" else ["F0", "F1", "F1N", "F2", "F0N", "F2N"]
     ctx.need(*cfgs)
     for cfg in cfgs:
+        from ..rules import check_no_generic_zeroed as _cz
+        _cz(ctx, cfg, "C09.Z0")
         n = 0
         n += check_owned_ops(ctx, cfg)
         n += check_ref_split(ctx, cfg, "<&GenericArray<$0,$1> as Split<$0,$2>>::split")
